@@ -1,6 +1,6 @@
 (* C17 — property theorems only.  Each is closed by [exact] of a lemma from proofs/C17_Proofs.v.
 
-   [fly ctor calc iter_once small adjust guarded b m] is the model of Builder.fly (coq/model/C17_Model.v).
+   [fly ctor calc iter_once small adjust guarded gfix b m] is the model of Builder.fly (coq/model/C17_Model.v).
    The flight physics are universally quantified oracles that see the builder only through attribute reads;
    [guarded] says whether the finally clause deletes the context only if it exists (true: specification and the
    code after fixes/F15.diff; false: the code as it stands).  [reads_only ... reads] is the hypothesis that the
@@ -16,59 +16,89 @@ Open Scope string_scope.
    builder is idle afterwards (initial options, no context, nothing readable left behind) *)
 Theorem C17_fly_history_independent : forall ctor calc iter_once small adjust reads,
   reads_only calc iter_once adjust reads ->
-  forall guarded o ms m,
-    let b := fst (run ctor calc iter_once small adjust guarded (fresh o) ms) in
-    snd (fly ctor calc iter_once small adjust guarded b m) = snd (fly ctor calc iter_once small adjust guarded (fresh o) m) /\
-    idle reads o (fst (fly ctor calc iter_once small adjust guarded b m)).
+  forall guarded gfix o ms m,
+    let b := fst (run ctor calc iter_once small adjust guarded gfix (fresh o) ms) in
+    snd (fly ctor calc iter_once small adjust guarded gfix b m) = snd (fly ctor calc iter_once small adjust guarded gfix (fresh o) m) /\
+    idle reads o (fst (fly ctor calc iter_once small adjust guarded gfix b m)).
 Proof. exact main_fly_history_independent. Qed.
 Print Assumptions C17_fly_history_independent.
 
 Theorem C17_history_is_fresh_flights : forall ctor calc iter_once small adjust reads,
   reads_only calc iter_once adjust reads ->
-  forall guarded o ms,
-    snd (run ctor calc iter_once small adjust guarded (fresh o) ms) =
-    map (fun m => snd (fly ctor calc iter_once small adjust guarded (fresh o) m)) ms.
+  forall guarded gfix o ms,
+    snd (run ctor calc iter_once small adjust guarded gfix (fresh o) ms) =
+    map (fun m => snd (fly ctor calc iter_once small adjust guarded gfix (fresh o) m)) ms.
 Proof. exact main_history_is_fresh_flights. Qed.
 Print Assumptions C17_history_is_fresh_flights.
 
-Theorem C17_no_context_left_behind : forall ctor calc iter_once small adjust guarded b m,
-  b_ctx (fst (fly ctor calc iter_once small adjust guarded b m)) = None.
+(* ... and for histories in which the caller also replaces the builder's options between flights *)
+Theorem C17_ops_history_independent : forall ctor calc iter_once small adjust reads,
+  reads_only calc iter_once adjust reads ->
+  forall guarded gfix o0 ops m,
+    let b := fst (run_ops ctor calc iter_once small adjust guarded gfix (fresh o0) ops) in
+    snd (fly ctor calc iter_once small adjust guarded gfix b m)
+      = snd (fly ctor calc iter_once small adjust guarded gfix (fresh (b_opts b)) m) /\
+    idle reads (b_opts b) (fst (fly ctor calc iter_once small adjust guarded gfix b m)).
+Proof. exact main_ops_history_independent. Qed.
+Print Assumptions C17_ops_history_independent.
+
+Theorem C17_no_context_left_behind : forall ctor calc iter_once small adjust gfix guarded b m,
+  b_ctx (fst (fly ctor calc iter_once small adjust guarded gfix b m)) = None.
 Proof. exact fly_ctx_none. Qed.
 Print Assumptions C17_no_context_left_behind.
 
 Theorem C17_failed_flight_leaves_builder_usable : forall ctor calc iter_once small adjust reads,
   reads_only calc iter_once adjust reads ->
-  forall guarded o bad m,
-    let b := fst (fly ctor calc iter_once small adjust guarded (fresh o) bad) in
+  forall guarded gfix o bad m,
+    let b := fst (fly ctor calc iter_once small adjust guarded gfix (fresh o) bad) in
     b_ctx b = None /\ b_opts b = o /\
-    snd (fly ctor calc iter_once small adjust guarded b m) = snd (fly ctor calc iter_once small adjust guarded (fresh o) m).
+    snd (fly ctor calc iter_once small adjust guarded gfix b m) = snd (fly ctor calc iter_once small adjust guarded gfix (fresh o) m).
 Proof. exact main_failed_flight_leaves_builder_usable. Qed.
 Print Assumptions C17_failed_flight_leaves_builder_usable.
 
 (* the original reason surfaces (guarded finally) *)
-Theorem C17_original_error_surfaces : forall ctor calc iter_once small adjust b m r,
-  ctor (b_opts b) m = inr r -> snd (fly ctor calc iter_once small adjust true b m) = Raised (Reason r).
+Theorem C17_original_error_surfaces : forall ctor calc iter_once small adjust gfix b m r,
+  ctor (b_opts b) m = inr r -> snd (fly ctor calc iter_once small adjust true gfix b m) = Raised (Reason r).
 Proof. exact original_error_surfaces_ctor. Qed.
 Print Assumptions C17_original_error_surfaces.
 
-Theorem C17_never_an_unrelated_internal_error : forall ctor calc iter_once small adjust b m,
-  snd (fly ctor calc iter_once small adjust true b m) <> Raised AttrCtx.
+Theorem C17_never_an_unrelated_internal_error : forall ctor calc iter_once small adjust gfix b m,
+  snd (fly ctor calc iter_once small adjust true gfix b m) <> Raised AttrCtx.
 Proof. exact guarded_never_raises_internal_error. Qed.
 Print Assumptions C17_never_an_unrelated_internal_error.
 
 (* the finding F15: as coded (unguarded `del self.ctx`) every constructor failure on an idle builder is masked *)
-Theorem C17_context_ctor_error_masked_before_fix : forall ctor calc iter_once small adjust b m r,
-  b_ctx b = None -> ctor (b_opts b) m = inr r -> snd (fly ctor calc iter_once small adjust false b m) = Raised AttrCtx.
+Theorem C17_context_ctor_error_masked_before_fix : forall ctor calc iter_once small adjust gfix b m r,
+  b_ctx b = None -> ctor (b_opts b) m = inr r -> snd (fly ctor calc iter_once small adjust false gfix b m) = Raised AttrCtx.
 Proof. exact ctor_error_masked_as_coded. Qed.
 Print Assumptions C17_context_ctor_error_masked_before_fix.
 
 Theorem C17_original_error_surfaces_before_fix_refuted :
   exists m, w_ctor w_opts m = inr 7%Z /\
-    snd (fly w_ctor w_calc w_iter w_small w_adjust false (fresh w_opts) m) <> Raised (Reason 7%Z) /\
-    snd (fly w_ctor w_calc w_iter w_small w_adjust false (fresh w_opts) m) = Raised AttrCtx /\
-    snd (fly w_ctor w_calc w_iter w_small w_adjust true (fresh w_opts) m) = Raised (Reason 7%Z).
+    snd (fly w_ctor w_calc w_iter w_small w_adjust false true (fresh w_opts) m) <> Raised (Reason 7%Z) /\
+    snd (fly w_ctor w_calc w_iter w_small w_adjust false true (fresh w_opts) m) = Raised AttrCtx /\
+    snd (fly w_ctor w_calc w_iter w_small w_adjust true true (fresh w_opts) m) = Raised (Reason 7%Z).
 Proof. exact context_ctor_error_masked_refuted. Qed.
 Print Assumptions C17_original_error_surfaces_before_fix_refuted.
+
+(* a starting mass handed in by the caller: with the fuel load derived either way (fixes/FC17a.diff) it is defined
+   before the first iteration and the mass handed in is the one used *)
+Theorem C17_fuel_load_defined_before_first_iteration : forall calc o own c given,
+  lookup "starting_mass" own = None -> lookup "total_fuel_mass" own = None ->
+  let e := mkb o own (Some (ctx_of c given)) in
+  getattr (prepare calc true e) "total_fuel_mass" = Some (Some (snd (calc o (view e)))) /\
+  getattr (prepare calc true e) "starting_mass" =
+    Some (Some (match given with Some m => m | None => fst (calc o (view e)) end)).
+Proof. exact fuel_load_defined_before_first_iteration. Qed.
+Print Assumptions C17_fuel_load_defined_before_first_iteration.
+
+(* the finding FC17a as the code stood: the fuel load is still None when the first iteration starts *)
+Theorem C17_fuel_load_defined_before_fix_refuted : forall calc o own c m,
+  lookup "starting_mass" own = None -> lookup "total_fuel_mass" own = None ->
+  let e := mkb o own (Some (ctx_of c (Some m))) in
+  getattr (prepare calc false e) "total_fuel_mass" = Some None.
+Proof. exact given_mass_fuel_load_undefined_before_fix. Qed.
+Print Assumptions C17_fuel_load_defined_before_fix_refuted.
 
 (* mass iteration: a trajectory only with a residual that passed the tolerance test, otherwise an error *)
 Theorem C17_mass_iteration_tolerance_or_error : forall iter_once small adjust k b t r,
